@@ -4,6 +4,7 @@ CONSTANTS
   ConnStates = {"up"}
   MaxReplies = 1
   LeakOnSendError = FALSE
+  MatchCreation = TRUE
   RemoveOnTimeout = FALSE
 CHECK_DEADLOCK FALSE
 INVARIANT NothingLeft
